@@ -80,6 +80,8 @@ struct Out {
     steps: u64,
     digests: Vec<u64>,
     rekeyed: usize,
+    /// nodes whose signed-peers table held an entry the main table lacked when the API view was compared
+    signed_only: usize,
 }
 
 fn table_ids(w: &World, n: usize) -> BTreeSet<Id20> {
@@ -102,6 +104,7 @@ fn scenario(cfg: &Cfg, track: bool) -> Out {
     let mut addrs: Vec<SocketAddrV4> = vec![];
     let mut boot_calls: Vec<(usize, usize)> = vec![];
     let mut problems: Vec<(String, String)> = vec![];
+    let mut signed_only = 0usize;
     let mut has_live_boot: Vec<bool> = vec![];
     for j in 0..s {
         let boots: Vec<SocketAddrV4> = if j == 0 {
@@ -159,6 +162,18 @@ fn scenario(cfg: &Cfg, track: bool) -> Out {
     }
     // quiescence
     w.run_for(5 * SEC);
+    // right after the joins (entries that only the signed-peers table holds exist now): what
+    // Info / to_bootstrap report must be the node's state
+    for j in 0..nodes.len() {
+        let snap = w.snapshot(nodes[j]);
+        let main: BTreeSet<SocketAddrV4> = snap.core.routing_table.buckets.iter().flat_map(|(_, b)| b.iter().map(|n| n.address)).collect();
+        if snap.core.signed_peers_routing_table.buckets.iter().flat_map(|(_, b)| b.iter()).any(|n| !main.contains(&n.address)) {
+            signed_only += 1;
+        }
+        for (k, d) in w.api_view_mismatches(nodes[j]) {
+            problems.push((k, format!("node #{j}, right after the joins: {d}")));
+        }
+    }
     let mut rekeyed = 0;
     for (j, (n, c)) in boot_calls.iter().enumerate() {
         let res = matches!(w.result(*c), Some(CallResult::Bool(true)));
@@ -291,10 +306,16 @@ fn scenario(cfg: &Cfg, track: bool) -> Out {
             }
         }
     }
+    // Info / to_bootstrap of every node (what a user sees) must be the node's state
+    for j in 0..nodes.len() {
+        for (k, d) in w.api_view_mismatches(nodes[j]) {
+            problems.push((k, format!("node #{j}: {d}")));
+        }
+    }
     if let Some(dead) = w.any_actor_panicked() {
         problems.push(("actor-died".into(), format!("an actor thread died: node {dead} {}", w.death_reason(dead))));
     }
-    Out { problems, steps: w.steps, digests: w.state_digests.iter().copied().collect(), rekeyed }
+    Out { problems, steps: w.steps, digests: w.state_digests.iter().copied().collect(), rekeyed, signed_only }
 }
 
 /// Slow links: every datagram takes `one_way_ms`, so the round trip exceeds the initial 500 ms
@@ -367,6 +388,7 @@ fn record(c: &Cfg, o: &Out, out: &mut Partial) {
     out.add("transitions", o.steps);
     out.digests.extend(o.digests.iter());
     out.add("nodes_rekeyed", o.rekeyed as u64);
+    out.add("api_views_with_signed_only_entries", o.signed_only as u64);
     if o.problems.is_empty() {
         out.add("clean_runs", 1);
     }
